@@ -111,9 +111,13 @@ pub fn check_artifacts(sc: &E2Scenario, before: &Tree, after: &Tree, listed: &[S
         let mut src_abs = Vec::new();
         for s in sources {
             let s = s.as_str().unwrap_or("");
-            let joined = if s.starts_with('/') { s.to_string() } else if root.is_empty() { format!("{map_dir}/{s}") } else { format!("{map_dir}/{root}/{s}") };
-            src_abs.push(indep::norm(&joined));
+            let rel = if root.is_empty() { s.to_string() } else { format!("{root}/{s}") };
+            // (below a symbolic link a relative entry has two readings; either may hit the input)
+            let cands = indep::resolve_candidates(map_path, &rel);
+            let chosen = cands.iter().find(|c| graphql_inputs.contains(*c)).unwrap_or(&cands[0]).clone();
+            src_abs.push(chosen);
         }
+        let _ = &map_dir;
         // 7. the generated file's last line names the map next to it
         let last = gen_text.trim_end_matches('\n').rsplit('\n').next().unwrap_or("");
         let want = format!("//# sourceMappingURL={}", indep::basename(map_path));
@@ -380,9 +384,10 @@ pub fn check_artifacts(sc: &E2Scenario, before: &Tree, after: &Tree, listed: &[S
                 if !(spec.starts_with("./") || spec.starts_with("../")) {
                     rep.violate(&["C20"], "C20.1-specifier-not-relative", format!("{d}: schema import specifier {spec:?} does not start with ./ or ../"));
                 }
-                let resolved = indep::resolve_from_file(&d, &spec);
+                let resolved_all = indep::resolve_candidates(&d, &spec);
+                let resolved = resolved_all[0].clone();
                 // invert the TS -> JS extension table
-                let cands: Vec<String> = js_to_ts_candidates(&resolved);
+                let cands: Vec<String> = resolved_all.iter().flat_map(|r| js_to_ts_candidates(r)).collect();
                 if !cands.iter().any(|c| c == so) {
                     rep.violate(
                         &["C20"],
